@@ -7,6 +7,7 @@ import Lean.Data.Json
 import ThaiLintModel.C01.Drv
 import ThaiLintModel.C02.Drv
 import ThaiLintModel.C03.Drv
+import ThaiLintModel.C04.Drv
 import ThaiLintModel.C06.Drv
 import ThaiLintModel.C07.Drv
 import ThaiLintModel.C08.Drv
@@ -21,6 +22,7 @@ def dispatch (j : Json) : Json :=
   | "C01" => ThaiLintModel.C01.handle j
   | "C02" => ThaiLintModel.C02.handle j
   | "C03" => ThaiLintModel.C03.handle j
+  | "C04" => ThaiLintModel.C04.handle j
   | "C06" => ThaiLintModel.C06.handle j
   | "C07" => ThaiLintModel.C07.handle j
   | "C08" => ThaiLintModel.C08.handle j
